@@ -3,5 +3,5 @@ EXTENDS RemoteClient
 Keys2 == {1, 2}
 NoFix == {}
 AllFix == {"rejectnohash"}
-View == <<ep, acc, hs, nextId, calls, sent, order, queue, stale, srv, deliv, run, steps>>
+View == <<ep, acc, hs, nextId, calls, sent, order, queue, stale, srv, deliv, run, steps, had>>
 ====
